@@ -61,3 +61,14 @@ Example ctx_holds_somewhere :
   snd (step w 1 (Select (Q1 (lit "T")))) = RErr 90105.
 Proof. exact ctx_nonvacuous. Qed.
 Print Assumptions ctx_holds_somewhere.
+
+(* "set at connect": a NEW session opened at any point of any history of the instance - after other sessions created, used
+   or dropped anything - has the database and schema it asked for: they exist, they are the engine's current ones, unqualified
+   names resolve there, and no other session's context changed *)
+Theorem reconnect_sets_context : forall w ci c d s, cget (conns w) ci = Some c ->
+  let w' := fst (step w ci (Reconnect d s)) in
+  e_set_schema (cat w') d s = None /\ snd (step w' ci Current) = RCtx d s /\
+  (forall t, e_lookup (cat w) d s t = RTable d s t -> snd (step w' ci (Select (Q1 t))) = RTable d s t) /\
+  (forall k, In k (conns w') -> k = {| cdb := Some d; csch := Some s; dset := true; sset := true; edb := d; esch := s |} \/ In k (conns w)).
+Proof. exact reconnect_sets_context_l. Qed.
+Print Assumptions reconnect_sets_context.
